@@ -357,6 +357,16 @@ func checkCorrupt(c *COCase) (fvs []faultViol, info caseInfo) {
 	file := readFile(path)
 	l := parseLayout(file, rows)
 	info = describe(rows, l, len(file))
+	// baseline: the unaltered file must already show only written tuples;
+	// otherwise the failure is a round-trip failure, not an effect of a fault
+	base := &viols{}
+	observe(base, path, rows, "unaltered_file", "unaltered file")
+	if len(base.list) > 0 {
+		for _, x := range base.list {
+			fvs = append(fvs, faultViol{Viol: x})
+		}
+		return fvs, info
+	}
 	faults := resolveFaults(c, l, len(file))
 	regions := map[string]bool{}
 	for i, rf := range faults {
@@ -526,7 +536,10 @@ func TestPropCorrupt(t *testing.T) {
 		if len(fvs) > 0 {
 			first := ""
 			for _, fv := range fvs {
-				one := COCase{Entries: c.Entries, Faults: []Fault{fv.f}}
+				one := COCase{Entries: c.Entries}
+				if fv.f.X != 0 {
+					one.Faults = []Fault{fv.f}
+				}
 				p := ev.R().Fail(fv.Sig, fv.Msg, Doc{Property: "C11", Kind: "corrupt", CO: &one, Violations: []Viol{fv.Viol}})
 				if first == "" {
 					first = p
